@@ -407,15 +407,17 @@ impl RunState {
     }
 
     fn jsr(&mut self, instr: u16) {
-        *self.reg_mut(7) = self.pc;
+        let return_addr = self.pc;
         if instr & 0x800 == 0 {
             // reg
+            // Base register must be read before R7 is linked (`JSRR R7`)
             let br = (instr >> 6) & 0b111;
             self.pc = self.reg(br)
         } else {
             // offs
             self.pc = self.pc.wrapping_add(Self::s_ext(instr, 11))
         }
+        *self.reg_mut(7) = return_addr;
     }
 
     fn ld(&mut self, instr: u16) {
